@@ -222,6 +222,7 @@ class Session:
     def _make_probe_hook(self):
         log = self.hook_log
         U = self.U
+        newdict = (len(self.events) % 2) == 1          # decided by when the hook is first registered
 
         def probe_hook(origin, target, params, state):
             tag = params.get("A")
@@ -231,7 +232,10 @@ class Session:
                 "pin": {p: qnum(params.get(p), U) for p in PARAM_LETTERS},
             })
             # the hook returns a parameter of its own so the specification can
-            # check that what is returned is what is emitted and remembered
+            # check that what is returned is what is emitted and remembered;
+            # both styles the hook contract allows: update in place, or return a new dict
+            if newdict:
+                params = dict(params)
             params.update(B=float(len(log)))
             log[-1]["pout"] = {p: qnum(params.get(p), U) for p in PARAM_LETTERS}
             return params
